@@ -3,7 +3,8 @@ from xhair.runner import Obl
 M = "xhair.obl.c08"
 
 SEARCHES_QUICK = ["h/a/*", "h/*/x", "h/a/x/v1/y", "h/a/x/v1/m", "h/a/x/v1/m?ext=y", "h/a/x/v1/y?version=v2", "h/s,a/*", "h/a/**", "h/s/q1/**/c", "*/*", "h/*/*?t=s", "h/a/x[1]", "h/a/x*", "junk/*"]
-SEARCHES_THOROUGH = SEARCHES_QUICK + ["*", "h/*/**/y", "h/a/x?version=v1", "h/a/x,y", "h/a/*x", "h/s/*/v1/z", "h/s/q1/v1/o/*", "h/a/x/*/g", "h/**", "h/a/**/**", "h/a/x/v1/*?ext=y", ">/a/*", "h/a/x/v1/b,g"]
+# (no '>' searches here: "last per group" is C09's subject, C08's glob reference does not model it)
+SEARCHES_THOROUGH = SEARCHES_QUICK + ["*", "h/*/**/y", "h/a/x?version=v1", "h/a/x,y", "h/a/*x", "h/s/*/v1/z", "h/s/q1/v1/o/*", "h/a/x/*/g", "h/**", "h/a/**/**", "h/a/x/v1/*?ext=y", "h/a/x/v1/b,g"]
 ENTRIES_QUICK = [("", 5, ""), ("h/a/", 3, ""), ("h/a/x/v1/", 2, ""), ("h/s/q1/v1/", 2, "h/s/q1/v1/c")]
 ENTRIES_THOROUGH = [("", 7, ""), ("h/a/", 4, ""), ("h/a/x/v1/", 3, ""), ("h/s/q1/v1/", 3, "h/s/q1/v1/c"), ("h/s/q1/v1/o/", 2, "h/a/x"), ("h/", 4, "h/a/x[1]")]
 
